@@ -251,3 +251,63 @@ fn link_with_gcc(
 
     Ok(())
 }
+
+/// Observation points for the verification harness kept outside this repository.
+/// Only compiled with `--cfg capy_verif`; nothing here is used by the compiler itself.
+#[cfg(capy_verif)]
+pub mod verif_api {
+    use hir::common::{ComptimeLoc, ConcreteLoc, Ty};
+    use internment::Intern;
+
+    use crate::layout::{self, GetLayoutInfo};
+    use crate::mangle::{self, Mangle};
+
+    #[derive(Debug, Clone)]
+    pub struct TyLayout {
+        pub size: u32,
+        pub align: u32,
+        pub stride: u32,
+        /// field offsets, for struct types (distincts and variants of structs included)
+        pub offsets: Option<Vec<u32>>,
+        /// offset of the one-byte tag, for tagged unions
+        pub discriminant_offset: Option<u32>,
+    }
+
+    /// `layout::calc_layouts` for `tys`, then the layout queries codegen uses
+    pub fn layouts(tys: &[Intern<Ty>], pointer_bit_width: u32) -> Vec<TyLayout> {
+        layout::calc_layouts(tys.iter().copied(), pointer_bit_width);
+        tys.iter()
+            .map(|ty| TyLayout {
+                size: ty.size(),
+                align: ty.align(),
+                stride: ty.stride(),
+                offsets: ty.struct_layout().map(|l| l.offsets().to_vec()),
+                discriminant_offset: ty.enum_layout().map(|l| l.discriminant_offset()),
+            })
+            .collect()
+    }
+
+    pub fn mangle_loc(
+        loc: ConcreteLoc,
+        mod_dir: &std::path::Path,
+        interner: &interner::Interner,
+    ) -> String {
+        loc.to_mangled_name(mod_dir, interner)
+    }
+
+    pub fn mangle_comptime(
+        loc: ComptimeLoc,
+        data: Option<&str>,
+        mod_dir: &std::path::Path,
+        interner: &interner::Interner,
+    ) -> String {
+        match data {
+            Some(data) => (loc, data).to_mangled_name(mod_dir, interner),
+            None => loc.to_mangled_name(mod_dir, interner),
+        }
+    }
+
+    pub fn mangle_internal(name: &str) -> String {
+        mangle::mangle_internal(name)
+    }
+}
